@@ -117,6 +117,8 @@ type path struct {
 	ctxCancel                      func()
 	pendingRequests                atomic.Int64
 	confMutex                      sync.RWMutex
+	nextConfMutex                  sync.Mutex
+	nextConf                       *conf.Path
 	source                         defs.Source
 	stream                         *stream.Stream
 	recorder                       *recorder.Recorder
@@ -137,7 +139,7 @@ type path struct {
 	onDemandPublisherCloseTimer    *time.Timer
 
 	// in
-	chReloadConf              chan *conf.Path
+	chReloadConf              chan struct{}
 	chStaticSourceSetReady    chan defs.PathSourceStaticSetReadyReq
 	chStaticSourceSetNotReady chan defs.PathSourceStaticSetNotReadyReq
 	chDescribe                chan defs.PathDescribeReq
@@ -162,7 +164,7 @@ func (pa *path) initialize() {
 	pa.onDemandStaticSourceCloseTimer = emptyTimer()
 	pa.onDemandPublisherReadyTimer = emptyTimer()
 	pa.onDemandPublisherCloseTimer = emptyTimer()
-	pa.chReloadConf = make(chan *conf.Path)
+	pa.chReloadConf = make(chan struct{}, 1)
 	pa.chStaticSourceSetReady = make(chan defs.PathSourceStaticSetReadyReq)
 	pa.chStaticSourceSetNotReady = make(chan defs.PathSourceStaticSetNotReadyReq)
 	pa.chDescribe = make(chan defs.PathDescribeReq)
@@ -327,8 +329,15 @@ func (pa *path) runInner() error {
 		case <-pa.onDemandPublisherCloseTimer.C:
 			pa.doOnDemandPublisherCloseTimer()
 
-		case newConf := <-pa.chReloadConf:
-			pa.doReloadConf(newConf)
+		case <-pa.chReloadConf:
+			pa.nextConfMutex.Lock()
+			newConf := pa.nextConf
+			pa.nextConf = nil
+			pa.nextConfMutex.Unlock()
+
+			if newConf != nil {
+				pa.doReloadConf(newConf)
+			}
 
 		case req := <-pa.chStaticSourceSetReady:
 			pa.doSourceStaticSetReady(req)
@@ -1107,10 +1116,16 @@ func (pa *path) addReaderPost(req defs.PathAddReaderReq) {
 }
 
 // reloadConf is called by pathManager.
+// It never blocks. Configurations are applied in the order in which they are submitted;
+// if several are submitted before the path picks them up, the last one wins.
 func (pa *path) reloadConf(newConf *conf.Path) {
+	pa.nextConfMutex.Lock()
+	pa.nextConf = newConf
+	pa.nextConfMutex.Unlock()
+
 	select {
-	case pa.chReloadConf <- newConf:
-	case <-pa.ctx.Done():
+	case pa.chReloadConf <- struct{}{}:
+	default:
 	}
 }
 
